@@ -1973,10 +1973,10 @@ def parser_2e04(payload: str, msg: Message) -> PayDictT._2E04:
 
 # presence_detect, HVAC sensor
 def parser_2e10(payload: str, msg: Message) -> dict[str, Any]:
-    assert payload in ("0001", "000100"), _INFORM_DEV_MSG
+    assert payload in ("0000", "000000", "0001", "000100"), _INFORM_DEV_MSG
 
     return {
-        "presence_detected": bool(payload[2:4]),
+        "presence_detected": payload[2:4] == "01",
         "_unknown_4": payload[4:],
     }
 
